@@ -245,7 +245,7 @@ class Rig(object):
         if chars != c.chars():
             bad = [(r + 1, col + 1) for r in range(len(chars)) for col in range(len(chars[r]))
                    if r >= len(c.text) or col >= len(c.text[r]) or chars[r][col] != c.text[r][col]]
-            viols.append(('text/%s/%s/%s' % (gfx, opname, ksig),
+            viols.append(('text/%s/%s/%s' % (gfx, opname, ksig if ksig != 'none' else 'changed-without-signal'),
                           'after %s: %d character cells differ, first at %r: display %r, interpreter %r' % (
                               opname, len(bad), bad[0],
                               c.text[bad[0][0] - 1][bad[0][1] - 1] if bad[0][0] <= len(c.text) else None,
